@@ -45,11 +45,30 @@ def wire(req):
     return refhap.tlv_dec(bytes(TLV.encode_list(req)))
 
 
+ODD_STATES = ["empty", "exp+byte", "dup-adjacent", "255"]     # State item of length 0; expected value followed by another byte; two adjacent State items
+
+
+def state_items(state, exp_state):
+    if state == "absent":
+        return []
+    if state == "expected":
+        return [(T_STATE, bytes([exp_state]))]
+    if state == "empty":
+        return [(T_STATE, b"")]
+    if state == "exp+byte":
+        return [(T_STATE, bytes([exp_state, 2]))]
+    if state == "dup-adjacent":
+        return [(T_STATE, bytes([exp_state])), (T_STATE, bytes([exp_state + 1]))]
+    return [(T_STATE, bytes([int(state)]))]
+
+
+def norm_state(state, exp_state):
+    return "expected" if state.isdigit() and int(state) == exp_state else state
+
+
 def build_reply(step, state, err, subset, order, valid):
     exp_state, others = STEPS[step]
-    items = []
-    if state != "absent":
-        items.append((T_STATE, bytes([exp_state if state == "expected" else int(state)])))
+    items = state_items(state, exp_state)
     if ERRORS[err] is not None:
         items.append((T_ERROR, ERRORS[err]))
     for t in others:
@@ -65,8 +84,7 @@ def run_cell(case, R):
     subset = set(case["subset"])
     k = case.get("k", 0)
     exp_state = STEPS[step][0]
-    if state not in ("absent", "expected") and int(state) == exp_state:
-        state = "expected"
+    state = norm_state(state, exp_state)
     error_present = ERRORS[err] is not None
     complete = REQUIRED[step] <= subset
     control = not error_present and state in ("expected", "absent") and complete
@@ -176,8 +194,7 @@ def run_resume_cell(case, R):
     from props.c01 import check_honest, run_exchange
     from vlib.refhap import T_METHOD, T_SESSIONID
     state, err, order = case["state"], case["err"], case["order"]
-    if state not in ("absent", "expected") and int(state) == 2:
-        state = "expected"
+    state = norm_state(state, 2)
     error_present = ERRORS[err] is not None
     control = not error_present and state in ("expected", "absent")
     R.nt(not control)
@@ -192,9 +209,7 @@ def run_resume_cell(case, R):
     def hook(acc, honest):
         assert acc.resumed, "harness: accessory did not resume"
         items = [(t, v) for t, v in honest if t != T_STATE]
-        head = []
-        if state != "absent":
-            head.append((T_STATE, bytes([2 if state == "expected" else int(state)])))
+        head = state_items(state, 2)
         if ERRORS[err] is not None:
             head.append((T_ERROR, ERRORS[err]))
         items = head + items
@@ -220,7 +235,7 @@ def run_resume_cell(case, R):
 
 
 def enum_resume_table(tier):
-    for state in ["absent", "expected"] + [str(s) for s in range(0, 8) if s != 2]:
+    for state in ["absent", "expected"] + [str(s) for s in range(0, 8) if s != 2] + ODD_STATES:
         for err in ERRORS:
             for order in ("spec", "reversed"):
                 yield {"state": state, "err": err, "order": order, "k": SEED}
@@ -229,7 +244,7 @@ def enum_resume_table(tier):
 def enum_table(tier):
     i = 0
     for step, (exp_state, others) in STEPS.items():
-        states = ["absent", "expected"] + [str(s) for s in range(0, 8) if s != exp_state]
+        states = ["absent", "expected"] + [str(s) for s in range(0, 8) if s != exp_state] + ODD_STATES
         subsets = [list(c) for n in range(len(others) + 1) for c in itertools.combinations(others, n)]
         heavy = step in ("setup-M4", "setup-M6")
         for state in states:
@@ -247,16 +262,16 @@ from props.ble_layers import C04_BLE_LAYERS, C04_IP_LAYERS  # noqa: E402
 
 SPEC = Property(
     P, "fault_enumeration",
-    rule=("decision table: step in {setup M2, M4, M6; verify M2, M4} x state in {absent, expected, every other value 0..7} x error in "
+    rule=("decision table: step in {setup M2, M4, M6; verify M2, M4} x state in {absent, expected, every other value 0..7, 255, zero-length, expected value plus a second byte, two adjacent State items} x error in "
           "{absent, 0x01..0x07, 0x00, 0x08, 0xFF, two-byte, empty} x every subset of the step's other defined fields (valid contents from "
           "the reference accessory after a real exchange prefix) x field order {spec, reversed} x decode style {IP/CoAP expected list, "
           "BLE}. Non-trivial: every cell with an error code or a wrong state; the error-free complete cells are controls that must "
           "succeed. Add-/remove-pairing cells on IP and BLE are in the layers named ip-pairings / ble-pairings."),
     layers=[
         Layer("protocol-table", run_cell, enumerate=enum_table, exhaustive=True,
-              space="5 steps x 9 states x 13 errors x 2^|other fields| x 4 (order, decode) combinations (quick: 2 combinations for setup M4/M6)", min_nontrivial=3000),
+              space="5 steps x 13 states x 13 errors x 2^|other fields| x 4 (order, decode) combinations (quick: 2 combinations for setup M4/M6)", min_nontrivial=3000),
         Layer("resume-table", run_resume_cell, enumerate=enum_resume_table, exhaustive=True,
-              space="verify M2 of a resumed exchange: 9 states x 13 errors x 2 orders on top of a valid resume reply", min_nontrivial=200),
+              space="verify M2 of a resumed exchange: 13 states x 13 errors x 2 orders on top of a valid resume reply", min_nontrivial=200),
         *C04_BLE_LAYERS,
         *C04_IP_LAYERS,
     ],
